@@ -81,7 +81,8 @@ def relay_configs(ctx):
   else:
     out = [(1, 0.8, 1, 1, False), (1, 0.8, 5, 1, False), (2, 0.5, 2, 2, True), (2, 0.8, 10, 1, True), (3, 0.5, 5, 2, False),
            (3, 0.8, 2, 1, True), (4, 0.5, 10, 1, False), (4, 0.8, 1, 2, False), (1, 0.5, 2, 2, False), (2, 0.8, 1, 1, False),
-           (4, 0.5, 5, 1, True), (2, 0.5, 5, 3, True)]
+           (4, 0.5, 5, 1, True), (2, 0.5, 5, 3, True),
+           ]
   cfgs = []
   # a destination that fills up, is declared down and stays away (few event kinds, one metric, deeper)
   cfgs.append({'max_queue': 1, 'low_pct': 0.8, 'batch': 1, 'ndest': 2, 'dynamic': True, 'flow': True, 'protocol': 'pickle',
@@ -91,6 +92,10 @@ def relay_configs(ctx):
   for mq, batch, proto in ((1, 1, 'pickle'), (2, 5, 'pickle'), (2, 2, 'line'), (3, 5, 'line')):
     cfgs.append({'max_queue': mq, 'low_pct': 0.8, 'batch': batch, 'ndest': 1, 'dynamic': False, 'flow': True, 'protocol': proto,
                  'receivers': True, 'stop': False, 'hp': False, 'metrics': ('m',), 'arm': True})
+  # a queue that is drained one datapoint at a time and rests BETWEEN the low watermark and the limit while the connection
+  # is lost and made again (non-initial state: the queue-full signal has fired and has not been answered yet)
+  cfgs.append({'max_queue': 2, 'low_pct': 0.5, 'batch': 1, 'ndest': 1, 'dynamic': False, 'flow': True, 'protocol': 'pickle',
+               'receivers': False, 'stop': False, 'hp': False, 'metrics': ('m',), 'deep': 6})
   for mq, low, batch, nd, dyn in out:
     cfgs.append({'max_queue': mq, 'low_pct': low, 'batch': batch, 'ndest': nd, 'dynamic': dyn, 'flow': True,
                  'protocol': 'pickle', 'receivers': True, 'stop': False, 'hp': False,
